@@ -246,6 +246,7 @@ def attach_module_rules(repo: Repo, rep, P: str):
         rep.inconclusive(f"{P}.R2", construct, "", "too many paths", f"{rel}:{fn.lineno}")
         return
     rep.count("attach_module_paths", len(paths), 6)
+    none_slot_first(repo, rep, P, "R2")
     # module_index == list.index on self.modules
     module_index_rule(repo, rep, P, "R2")
     seen = set()
@@ -325,14 +326,57 @@ def attach_module_rules(repo: Repo, rep, P: str):
               and "ModuleOwnershipError" in norm(n.ast.exc)]
     if raises:
         conds = _dominating_conditions(g, dom, raises[0].id)
-        if any("parent is not None" in t and "parent is not self" in t and lab == "true" for t, lab in conds):
+        guard = next((t for t, lab in conds if "parent is not None" in t and "parent is not self" in t and lab == "true"), None)
+        if guard and _conjuncts(guard) == {f"{mp}.parent is not None", f"{mp}.parent is not self"}:
             rep.ok(f"{P}.R3", construct, raises[0].text(), "raised exactly for a module owned by another project")
+        elif guard:
+            rep.violation(f"{P}.R3", construct, f"if {guard}", "the foreign-owner refusal carries an extra condition: some foreign modules are accepted",
+                          f"{rel}:{raises[0].lineno}")
         else:
             rep.violation(f"{P}.R3", construct, raises[0].text(), "ownership error is raised under a different condition",
                           f"{rel}:{raises[0].lineno}")
     else:
         rep.violation(f"{P}.R3", construct, "raise ModuleOwnershipError(...)", "foreign modules are no longer refused",
                       f"{rel}:{fn.lineno}")
+
+
+def _conjuncts(text: str) -> set:
+    try:
+        e = ast.parse(text, mode="eval").body
+    except SyntaxError:
+        return {text}
+    if isinstance(e, ast.BoolOp) and isinstance(e.op, ast.And):
+        return {norm(v) for v in e.values}
+    return {norm(e)}
+
+
+def none_slot_first(repo: Repo, rep, P: str, rule: str):
+    """attach_module(None) appends an empty position whatever the list holds: the None test comes before everything else."""
+    proj = repo.cls("Project", module="rv.project")
+    fn = repo.own_method(proj, "attach_module")
+    rel = proj.file.rel
+    mp = [a.arg for a in fn.args.args if a.arg != "self"][0]
+    g = CFG(fn)
+    dom = g.dominators()
+    tests = [n for n in g.nodes if n.kind == "test" and norm(n.ast) in (f"{mp} is None", f"{mp} == None", f"not {mp}")]
+    if not tests:
+        rep.violation(f"{P}.{rule}", f"{rel}:Project.attach_module", f"if {mp} is None: self.modules.append({mp})",
+                      "empty positions are no longer handled", f"{rel}:{fn.lineno}")
+        return
+    t = tests[0]
+    early = [n for n in g.nodes if n.kind in ("stmt", "test") and n.id != t.id and t.id not in dom.get(n.id, set()) and n.id in g.reachable()
+             and not (n.kind == "stmt" and isinstance(n.ast, ast.Expr) and isinstance(n.ast.value, ast.Constant))]
+    tsucc = [m for m, lab in g.succ[t.id] if lab == "true"]
+    appends = tsucc and any(isinstance(c, ast.Call) and norm(c.func) == "self.modules.append" for c in ast.walk(g.nodes[tsucc[0]].ast or ast.Pass()))
+    if early:
+        rep.violation(f"{P}.{rule}", f"{rel}:Project.attach_module", early[0].text(),
+                      f"`{early[0].text()}` runs before the empty-slot test: for {mp}=None it can return/raise without appending the "
+                      "empty position (e.g. `None in self.modules` is true once one empty slot exists), so later modules shift down",
+                      f"{rel}:{early[0].lineno}")
+    elif not appends:
+        rep.violation(f"{P}.{rule}", f"{rel}:Project.attach_module", t.text(), "the empty-slot branch does not append", f"{rel}:{t.lineno}")
+    else:
+        rep.ok(f"{P}.{rule}", f"{rel}:Project.attach_module", f"if {mp} is None: self.modules.append({mp})", "first test of the function")
 
 
 def module_index_rule(repo: Repo, rep, P: str, rule: str):
@@ -468,8 +512,15 @@ def attach_pattern_rules(repo: Repo, rep, P: str):
     else:
         r = raises[0]
         conds = _dominating_conditions(g, dom, r.id)
-        if any(f"{pp}.project is not None" in t and lab == "true" for t, lab in conds):
-            rep.ok(f"{P}.R3", construct, r.text(), "raised for a pattern that already has an owner")
+        guard = next((t for t, lab in conds if f"{pp}.project is not None" in t and lab == "true"), None)
+        conj = _conjuncts(guard) if guard else set()
+        allowed = {pp, f"{pp} is not None", f"{pp}.project is not None"}
+        if guard and f"{pp}.project is not None" in conj and conj <= allowed:
+            rep.ok(f"{P}.R3", construct, f"if {guard}: {r.text()}", "raised for every pattern or clone that already has an owner")
+        elif guard:
+            rep.violation(f"{P}.R3", construct, f"if {guard}: {r.text()}",
+                          f"the ownership refusal is narrowed by {sorted(conj - allowed)}: owned objects that fail this extra test "
+                          "(e.g. pattern clones) are attached to a second project", f"{rel}:{r.lineno}")
         else:
             rep.violation(f"{P}.R3", construct, r.text(), "ownership error raised under a different condition", f"{rel}:{r.lineno}")
         # no mutation can precede the raise
